@@ -77,6 +77,15 @@ func (e *Env) RC() *mast.RemoteConfig {
 		Marshal:                 e.Marshal,
 		KeyCompare:              e.Compare,
 	}
+	if e.VK.Zero == nil { // set-like tree: nil values can only be reloaded with this flag
+		rc.UnmarshalerUsesRegisteredTypes = true
+		if e.Format == ref.V1 {
+			rc.Unmarshal = doubles.RegisteredUnmarshal(e.KK.Zero, nil)
+			if rc.Marshal == nil {
+				rc.Marshal = json.Marshal
+			}
+		}
+	}
 	if e.Codec == "registered" {
 		rc.UnmarshalerUsesRegisteredTypes = true
 		rc.Unmarshal = doubles.RegisteredUnmarshal(e.KK.Zero, e.VK.Zero)
@@ -150,6 +159,10 @@ func short(l []interface{}) string {
 
 // GetTyped performs a Get with a destination of the stored value type.
 func GetTyped(ctx context.Context, m *mast.Mast, vk *ValKind, k interface{}) (interface{}, bool, error) {
+	if vk.Zero == nil {
+		ok, err := m.Get(ctx, k, nil)
+		return nil, ok, err
+	}
 	dst := reflect.New(reflect.TypeOf(vk.Zero))
 	ok, err := m.Get(ctx, k, dst.Interface())
 	if err != nil || !ok {
